@@ -1293,6 +1293,7 @@ class Cx:
         self.cplx = u["cplx"]
         self.local = None
         self.maxdepth = depth
+        self.force = []     # ptw names that the next _gen_ptw calls must use
 
     def num(self, nonzero=False):
         r = self.r
@@ -1349,7 +1350,7 @@ def _gen_ptw(cx, typ, depth):
     names = list(SMOOTH) + list(POSONLY)
     if not cx.cplx:
         names += KINK
-    name = r.ch(names)
+    name = cx.force.pop() if cx.force else r.ch(names)
     sub = gen(cx, typ, depth - 1)
     args = []
     fieldok = typ == "D"
@@ -1619,6 +1620,13 @@ def make_recipe(t, tier, cplx, feats, root):
     cx = Cx(r, u, dict(feats), depth)
     if root == "energy":
         expr = _gen_energy_root(cx, depth)
+    elif root.startswith("ptw:"):
+        # the named table entry inside a binary node: f(...) <op> g(...)
+        cx.force = [root[4:]]
+        typ = r.ch(["D", "D", "S"])
+        f = _gen_ptw(cx, typ, 2)
+        o = r.ch(["mul", "add", "sub"])
+        expr = ["bin", o, f, gen(cx, typ, 1)] if r.b() else ["bin", o, gen(cx, typ, 1), f]
     else:
         types = ["D", "D", "S"] + (["P"] if u["pc"] is not None else []) + (["T"] if feats.get("T") else [])
         typ = r.ch(types)
@@ -1711,33 +1719,113 @@ def _esum(cx, depth):
     return ["esum", a, b]
 
 
+def shrink_recipe(rec, check, kind=None, rounds=6):
+    """greedy structural shrinker (development aid for corpus entries): repeatedly replaces a node by one
+    of its children of the same static type, or a non-root sub-tree by a leaf, as long as `check` keeps
+    failing (with Violation kind `kind`, or with any non-harness exception if kind is None)."""
+    import copy
+
+    def fails(r):
+        try:
+            check(r)
+            return False
+        except Discard:
+            return False
+        except Violation as v:
+            return kind is None or v.kind == kind
+        except Exception:  # noqa: BLE001
+            return kind is None
+
+    def paths(n, pre=()):
+        yield pre
+        k = n[0]
+        idx = [i for i, c in enumerate(n) if isinstance(c, list) and c and isinstance(c[0], str)
+               and c[0] in _ALLKINDS]
+        for i in idx:
+            yield from paths(n[i], pre + (i,))
+
+    def get(n, path):
+        for i in path:
+            n = n[i]
+        return n
+
+    def put(root, path, val):
+        if not path:
+            return val
+        root = copy.deepcopy(root)
+        get(root, path[:-1])[path[-1]] = val
+        return root
+
+    u = Uni(rec)
+    best = copy.deepcopy(rec)
+    for _ in range(rounds):
+        changed = False
+        for path in sorted(paths(best["expr"]), key=len):
+            try:
+                node = get(best["expr"], path)
+            except (IndexError, TypeError):
+                continue
+            t = typ_of(node, u)
+            cands = [c for c in _children(node) if typ_of(c, u) == t]
+            if t == "D" and node[0] != "var":
+                cands.append(["var", (u.keys[0] if u.multi else "")] + ([0] if u.multi else []))
+            for c in cands:
+                trial = dict(best, expr=put(best["expr"], path, c))
+                if fails(trial):
+                    best, changed = trial, True
+                    break
+            if changed:
+                break
+        if not changed:
+            break
+    return best
+
+
+def ptw_table_cases(tier, seed):
+    """every key of the library's table (read at run time), real input and - for the entries the library
+    accepts on complex input - complex input, a few random contexts each"""
+    from nifty.cl.pointwise import ptw_dict
+    per = 5 if tier == "quick" else 60
+    res = []
+    for name in sorted(ptw_dict):
+        for cplx in (False, True):
+            if cplx and name in KINK:
+                continue
+            for j in range(per if not cplx else max(2, per // 2)):
+                res.append(make_recipe((seed, j, 4711), tier, cplx, {"T": True}, "ptw:" + name))
+    return res
+
+
 OPF = {"T": True, "duckr": True}
 NT = ("non-trivial = tree depth >= 3 (>= 2 levels above the leaves) with >= 1 nonlinear node (ptw, power, "
       "reciprocal/division, operator product, einsum, jax function, energy) and >= 1 binary node "
       "(operator*+-/**operator, vdot, join of two keys, energy sum); distinct = sha1 of the canonical recipe")
 
 SUBS = [
-    Sub(name="op_real", check=check_op, strategy=_mk_strategy(False, OPF), quick=640, thorough=30000,
-        shards=5, jax=True, rule="operator expressions on real input, all 24 ptw_dict entries; " + NT),
-    Sub(name="op_complex", check=check_op, strategy=_mk_strategy(True, OPF), quick=320, thorough=12000,
+    Sub(name="ptw_table", check=check_op, cases=ptw_table_cases, shards=1, jax=True,
+        rule="enumeration of every key of pointwise.ptw_dict (real; complex for the entries that accept it), "
+             "5 (thorough: 60) random binary contexts f(u) <op> g each; " + NT),
+    Sub(name="op_real", check=check_op, strategy=_mk_strategy(False, OPF), quick=720, thorough=30000,
+        shards=4, jax=True, rule="operator expressions on real input, all 24 ptw_dict entries; " + NT),
+    Sub(name="op_complex", check=check_op, strategy=_mk_strategy(True, OPF), quick=450, thorough=12000,
         shards=3, jax=True,
         rule="operator expressions on complex input: holomorphic ptw entries, real/imag/conjugate/vdot in the "
              "real 2N representation; " + NT),
-    Sub(name="lin_eager", check=check_eager, strategy=_mk_strategy(None, {}), quick=400, thorough=15000,
+    Sub(name="lin_eager", check=check_eager, strategy=_mk_strategy(None, {}), quick=450, thorough=15000,
         shards=3, jax=True,
         rule="the tree applied node by node to Linearization objects (Linearization.__mul__/__add__/__pow__/"
              "__truediv__/ptw/sum/integrate/vdot/__getitem__/real/imag/conjugate); " + NT),
     Sub(name="energy_metric", check=check_op, strategy=_mk_strategy(None, {"T": True, "ham": True}, root="energy"),
-        quick=320, thorough=12000, shards=3, jax=True,
+        quick=450, thorough=12000, shards=3, jax=True,
         rule="likelihood energies (Gaussian, Poisson, Bernoulli, Student-t, sums, scaled, StandardHamiltonian) "
              "and Squared2Norm/QuadraticForm at the root of an expression, want_metric drawn; metric = "
              "J^T M J; " + NT),
     Sub(name="energy_eager", check=check_eager, strategy=_mk_strategy(None, {}, root="energy"),
-        quick=160, thorough=6000, shards=1, jax=True,
+        quick=150, thorough=6000, shards=1, jax=True,
         rule="energies applied to an eagerly built Linearization with non-trivial Jacobian (prepend_jac path); "
              + NT),
     Sub(name="einsum_jaxop", check=check_op,
         strategy=_mk_strategy(None, {"mle": True, "jaxop": True, "no_ric": True}),
-        quick=96, thorough=3000, shards=1, jax=True, budget_quick=80.0,
+        quick=100, thorough=3000, shards=1, jax=True,
         rule="MultiLinearEinsum (with and without static field) and JaxOperator inside expressions; " + NT),
 ]
